@@ -93,6 +93,9 @@ type Enum struct {
 type EnumVal struct {
 	Short string
 	Num   int32
+	// Shadowed: the prefixed spelling of this option is the short name of another option of the
+	// same enum (HIGH next to LEVEL_HIGH); that spelling then denotes the other option
+	Shadowed bool
 }
 
 type Field struct {
@@ -158,7 +161,7 @@ func F(name string, num int32, k Kind, l Label) *Field {
 	return &Field{Name: name, JSON: camel(name), Num: num, Kind: k, Label: l}
 }
 
-var DefaultEnum = &Enum{Name: "Color", Prefix: "COLOR_", Values: []EnumVal{{"UNSPECIFIED", 0}, {"RED", 1}, {"DARK_BLUE", 3}, {"GREEN", 2}, {"COLOR_ISH", 7}}}
+var DefaultEnum = &Enum{Name: "Color", Prefix: "COLOR_", Values: []EnumVal{{Short: "UNSPECIFIED"}, {Short: "RED", Num: 1}, {Short: "DARK_BLUE", Num: 3}, {Short: "GREEN", Num: 2}, {Short: "COLOR_ISH", Num: 7}}}
 
 // Sub is the default object type.
 func NewSub() *Message {
